@@ -122,7 +122,7 @@ func sloppyLen(m dsl.Matcher) {
 //doc:before  *tmp = *x; *x = *y; *y = *tmp
 //doc:after   *x, *y = *y, *x
 func valSwap(m dsl.Matcher) {
-	m.Match(`$tmp := $y; $y = $x; $x = $tmp`).
+	m.Match(`$tmp := $y; $y = $x; $x = $tmp`).Where(m["x"].Pure && m["y"].Pure).
 		Report("can re-write as `$y, $x = $x, $y`")
 }
 
